@@ -24,16 +24,18 @@ LEVEL = "exploration"
 SHARDS = {"quick": 8, "thorough": 16}
 BUDGET = {"quick": 25.0, "thorough": 420.0}
 REQUIRE = {
-    "A_ops_checked": 20000,
-    "A_resizes": 500,
-    "A_replies_checked": 200,
-    "A_scrolled_view_checks": 200,
-    "B_ops_compared": 20000,
-    "B_cases_agree_to_end_under_quirk_model": 200,
+    # about 1/10 of what one quick run observes on the unchanged tree
+    "A_ops_checked": 3000,
+    "A_resizes": 250,
+    "A_replies_checked": 30,
+    "A_scrolled_view_checks": 800,
+    "B_ops_compared": 3000,
+    "B_cases_agree_to_end_under_quirk_model": 20,
     "B_scrollback_lines_compared": 500,
-    "B_view_checks": 200,
-    "B_replies_compared": 100,
-    "B_pending_wrap_states": 500,
+    "B_view_checks": 150,
+    "B_replies_compared": 60,
+    "B_pending_wrap_states": 400,
+    "S_sgr_ops_compared": 150,
     "directed_cases": 10,
 }
 RULE = (
@@ -41,7 +43,9 @@ RULE = (
     "well-formed and malformed CSI/OSC/charset/ESC sequences (params missing, 0, small, size-related, huge<=1e5, non-digit), "
     "valid/truncated/invalid UTF-8, C0, C1, cut into arbitrary chunks; encodings utf8, utf-8, ascii, iso8859-1, koi8-r, euc-jp; "
     "focus on/off; sizes 1x1..40x15; part B: model-aware op sequences over the undisputed VT100 core (print with autowrap, CR, "
-    "LF, BS, CUP/HVP, CUx, EL, ED, ICH, DCH, IL, DL, DECSTBM, IND, RI, NEL, SGR, DSR) on 1x1..40x12 terminals, per-op chunking; "
+    "LF, BS, CUP/HVP, CUx, EL, ED, ICH, DCH, IL, DL, DECSTBM, IND, RI, NEL, SGR, DSR) on 1x1..40x12 terminals, per-op chunking, "
+    "driven in lock-step with the faithful and the all-known-quirks model; part S: sequences of 1-6 SGR commands (basic/bright/"
+    "256/24-bit colours, bold, underline, blink, reverse and their resets) each followed by one glyph whose style is compared; "
     "a case = (part, size, encoding, focus, op list); distinct = distinct such tuples; non-trivial = at least one op executed"
 )
 ASSUMES = [
@@ -946,6 +950,9 @@ def fallback_sig(case, kind):
     d = direct_sig(kind, "")
     if d and kind.startswith("view-raise:"):
         return d
+    if kind in ("view", "view-cursor-outside", "scrollback:text"):
+        # judged once at the end of a case: the last op says nothing about the mechanism
+        return f"C15|B|diff|{kind}" + ("|width=1" if case["w"] == 1 else "") + ("|height=1" if case["h"] == 1 else "")
     # mechanism-level abstraction of the shrunk witness: the op after which the mismatch shows (with the class of its
     # count argument), the kinds of the other state-changing ops still needed (pure cursor motion is left out), and
     # the degenerate-size flags.  No literal values, sizes or texts.
@@ -1322,6 +1329,12 @@ def run_b_generated(ctx, rng, shrunk_seen):
                 return False
             return not (c["enc"] == "utf-8" and exec_b(c, allq, enc_override="utf8", final_view=False) is None)
 
+        r0 = exec_b(case, allq)
+        if r0 is not None and r0[1].startswith("view-raise:"):
+            # content() of the scrolled-back view raised: its own mechanism, no shrinking budget spent on it
+            ctx.count("B_view_raised_at_end_of_case")
+            ctx.violation(direct_sig(r0[1], r0[2]), f"{r0[1]}: {r0[2]}", dict(case, quirks="all"))
+            return
         if pred(case):
             key = "allq"
             if shrunk_seen.get(key, 0) >= 12:
